@@ -354,7 +354,13 @@ func c19(c *core.Ctx, r *core.Report) {
 	} else {
 		seps := map[string]bool{}
 		bad := ""
-		for _, ci := range core.Calls(parse) {
+		var parseCalls []ssa.CallInstruction
+		for _, f := range c.StaticCalleesInPkg(parse, map[*ssa.Function]bool{fmtArg: true}) {
+			for _, g := range core.WithAnon(f) {
+				parseCalls = append(parseCalls, core.Calls(g)...)
+			}
+		}
+		for _, ci := range parseCalls {
 			cal := core.Callee(ci.Common())
 			if cal == nil {
 				continue
